@@ -1,4 +1,5 @@
 import GqlVerif.Props.C13
+import GqlVerif.Proofs.ComposedC13
 open GqlVerif.C13
 #print axioms decorate_spec
 #print axioms decorate_double_required_panics
@@ -6,3 +7,17 @@ open GqlVerif.C13
 #print axioms builtin_alias_map
 #print axioms response_field_type
 #print axioms builtin_alias_source
+-- one rule at every position, on the generator's own functions (Proofs/ComposedC13.lean)
+#print axioms GqlVerif.Composed.renderField_type_rule
+#print axioms GqlVerif.Composed.calcFields_field_type
+#print axioms GqlVerif.Composed.variable_member_type
+#print axioms GqlVerif.Composed.variable_member_rule
+#print axioms GqlVerif.Composed.default_fn_type
+#print axioms GqlVerif.Composed.inputFieldType_rule
+#print axioms GqlVerif.Composed.inputBoxed_iff
+#print axioms GqlVerif.Composed.inputBoxed_iff_cycle
+#print axioms GqlVerif.Composed.input_member_type
+#print axioms GqlVerif.Composed.input_member_rule
+#print axioms GqlVerif.Composed.oneOf_member_type
+#print axioms GqlVerif.Composed.oneOf_member_rule
+#print axioms GqlVerif.Composed.oneOf_member_nonnull_panics
